@@ -44,8 +44,12 @@ fn is_inline_start(e: &Event) -> bool {
 }
 
 pub fn is_external(url: &str) -> bool {
+    // any `scheme://...` and mailto: are addresses outside the library
     let u = url.to_lowercase();
-    u.starts_with("http://") || u.starts_with("https://") || u.starts_with("mailto:")
+    let scheme = u.find("://").map(|at| &u[..at]).unwrap_or("");
+    let has_scheme = scheme.starts_with(|c: char| c.is_ascii_alphabetic())
+        && scheme.chars().all(|c| c.is_ascii_alphanumeric() || c == '+' || c == '-' || c == '.');
+    has_scheme || u.starts_with("mailto:")
 }
 
 impl<'a> P<'a> {
